@@ -52,6 +52,9 @@ func options(full bool) []option {
 		{"towgs84-7-rotation-only", "+ellps=intl +towgs84=0,0,0,0.35,-0.12,1.1,2.5", true, 1, 0},
 		// ... and one whose rotations are zero but whose scale is not
 		{"towgs84-7-zero-rotations", "+ellps=intl +towgs84=-87,-98,-121,0,0,0,5.2", true, 1, 0},
+		// the one built-in datum without shift parameters on another ellipsoid
+		// (a pure ellipsoid change)
+		{"datum=NAD27", "+datum=NAD27", true, 1, 0},
 	}
 	if !full {
 		return o
@@ -66,6 +69,9 @@ func options(full bool) []option {
 		o = append(o, option{"ellps=" + e, "+ellps=" + e, false, 1, 0})
 	}
 	for _, d := range DatumNames {
+		if d == "NAD27" {
+			continue // already in the quick list
+		}
 		o = append(o, option{"datum=" + d, "+datum=" + d, true, 1, 0})
 	}
 	return o
@@ -81,7 +87,7 @@ type param struct {
 func params() []param {
 	var p []param
 	// Mercator
-	for _, lon0 := range []float64{0, -75.5} {
+	for _, lon0 := range []float64{0, -75.5, -8, -17} {
 		p = append(p,
 			param{"merc", fmt.Sprintf("+proj=merc +lon_0=%g +x_0=0 +y_0=0", lon0), lon0, "merc"},
 			param{"merc", fmt.Sprintf("+proj=merc +lon_0=%g +lat_ts=30 +x_0=500000 +y_0=-2000000", lon0), lon0, "merc"},
@@ -154,6 +160,7 @@ func positions(region string, lon0 float64) [][2]float64 {
 				pts = append(pts, [2]float64{lon, lat})
 			}
 		}
+
 	case "north", "south":
 		lats := []float64{5, 20, 33, 40.5, 52, 65, 80}
 		for _, dl := range []float64{-60, -20, 0, 15, 50} {
@@ -219,6 +226,20 @@ func Lattice(full bool) []Def {
 			// positions are given relative to Greenwich; the central meridian of a
 			// definition with +pm is relative to that prime meridian
 			d.Pts = positions(pa.region, pa.lon0+o.pm)
+			if pa.region == "merc" && o.label == "base" {
+				// exactly on the antimeridian of the projection (lon - lon_0 = +-180),
+				// for the plain WGS84 definitions only: any datum hop or unit
+				// conversion moves such a longitude by an ulp, and which side of the
+				// seam it lands on is then a matter of rounding in the port and in
+				// proj4js alike
+				l := pa.lon0 + 180
+				if l > 180 {
+					l -= 360
+				}
+				for _, lat := range []float64{-60, 0, 45.5} {
+					d.Pts = append(d.Pts, [2]float64{l, lat})
+				}
+			}
 			if o.pm != 0 {
 				// keep longitudes relative to the prime meridian inside [-180, 180]
 				var keep [][2]float64
